@@ -18,16 +18,17 @@ import extract  # noqa: E402
 def main():
     cfgs = list(extract.QUICK) + sorted(extract.THOROUGH_EXTRA)
     paths, tree = extract.ensure_facts(cfgs)
-    allf, per, sig = set(), {}, {}
+    allf, per, sig, consts = set(), {}, {}, set()
     for c, p in paths.items():
         d = json.load(open(p))
         names = sorted(b['path'] for b in d['bodies'] if b['kind'] in ('Fn', 'AssocFn') and b['promoted'] is None)
         per[c] = names
+        consts.update(b['path'] for b in d['bodies'] if b['kind'].startswith(('Const', 'AssocConst')) and b['promoted'] is None)
         allf.update(names)
         for f in d['fns']:
             if f['path'] in names:
                 sig[f['path']] = [f['inputs'], f['output']]
-    out = {'tree': tree, 'all': sorted(allf), 'per_cfg': per, 'sig': sig}
+    out = {'tree': tree, 'all': sorted(allf), 'per_cfg': per, 'sig': sig, 'consts': sorted(consts)}
     json.dump(out, open(os.path.join(HERE, 'reference_fns.json'), 'w'), indent=0, sort_keys=True)
     print('%d functions over %d configurations (tree %s)' % (len(allf), len(per), tree))
 
